@@ -389,7 +389,9 @@ class Gen:
             return ("at", x, sub) if x else sub
         return ("int", self.int_lit())
 
-    POOLS = {"int": ["i0", "i1", "i2"], "bool": ["b0", "b1"], "len": ["n0", "n1"], "opt": ["o0", "o1"], "other": ["z0", "z1", "z2"]}
+    # the integer pool includes names the macro itself uses for its closure parameters (a<i>), its eq!/ne! bindings (m<i>) and its
+    # hoisted operand locals (l<k>): a user binding with such a name must not change what is compared
+    POOLS = {"int": ["i0", "i1", "i2", "a0", "a1", "m0", "m1", "l0", "l1"], "bool": ["b0", "b1"], "len": ["n0", "n1"], "opt": ["o0", "o1"], "other": ["z0", "z1", "z2"]}
 
     def fresh(self, bty):
         """binder names come from a small pool PER TYPE (not per position), unique within one alternative: two
